@@ -62,8 +62,7 @@ func (f *Multiply) Call(s *slip.Scope, args slip.List, depth int) (product slip.
 				(*big.Float)(ta)),
 			)
 		case *slip.Bignum:
-			product = (*slip.Bignum)(((*big.Int)(product.(*slip.Bignum))).Mul((*big.Int)(product.(*slip.Bignum)),
-				(*big.Int)(ta)))
+			product = slip.IntegerFromBig(new(big.Int).Mul((*big.Int)(product.(*slip.Bignum)), (*big.Int)(ta)))
 		case *slip.Ratio:
 			product = (*slip.Ratio)(((*big.Rat)(product.(*slip.Ratio))).Mul((*big.Rat)(product.(*slip.Ratio)),
 				(*big.Rat)(ta)))
